@@ -2,6 +2,8 @@ package bulking
 
 import (
 	"encoding/json"
+	"errors"
+	"io"
 	"net/http"
 )
 
@@ -34,6 +36,11 @@ func (h *JSONStreamBulkHandler) GetChannels(_ http.ResponseWriter, r *http.Reque
 				err := dec.Decode(nextElement)
 				if err != nil {
 					h.err = err
+					if !errors.Is(err, io.EOF) {
+						// a malformed element is a failing element of the bulk
+						h.actions = append(h.actions, "")
+						h.channel <- BulkElement{parseError: err}
+					}
 					return
 				}
 
